@@ -34,8 +34,8 @@ def first_flushes(fi, roles):
     return fl, first
 
 
-def run(ctx):
-    for cfg in CONFIGS:
+def run(ctx, configs=None):
+    for cfg in (configs or CONFIGS):
         prog = ctx.prog(cfg)
         roles, eff = effects.build(prog)
         fi = roles.f_init
